@@ -217,6 +217,8 @@ class EffectDomain(DefaultDomain):
                     return self._abs(pl - pr)
                 if isinstance(node.op, ast.Mult) and isinstance(pl, int) and isinstance(pr, int):
                     return self._abs(pl * pr)
+                if isinstance(node.op, ast.Mult) and (isinstance(pl, int) != isinstance(pr, int)) and abs(pl if isinstance(pl, int) else pr) <= 200:
+                    return self._abs(pl * pr)   # "=" * 70
             except TypeError:
                 pass
         if isinstance(node.op, ast.Mod) and okl and okr and isinstance(pl, str):
@@ -224,6 +226,8 @@ class EffectDomain(DefaultDomain):
                 return self._abs(pl % pr)
             except (TypeError, ValueError):
                 pass
+        if isinstance(node.op, ast.Mod) and okl and isinstance(pl, str) and right != TOP and getattr(self, "heap", False):
+            return ("fmt", left, right)   # text made from this template and these values, some of them not known exactly
         if isinstance(left, tuple) and isinstance(right, tuple) and left[:1] == ("set",) and right[:1] == ("set",):
             op = {ast.BitOr: "union", ast.Sub: "minus", ast.BitAnd: "meet"}.get(type(node.op))
             if op:
